@@ -65,8 +65,8 @@ def main():
         s += [load_block(1, P), "OPT h1 PRIMAL", "GETBASIS h1", "OPT h1 PRIMAL", "GETBASIS h1"]
         s += ["OPT h0 PRIMAL", "GETBASIS h0", "WRITEBASIS h0 own.bas OWN", "CAT own.bas", "GETBASIS h0", "OPT h0 PRIMAL", "GETBASIS h0",
               "READBASIS h0 own.bas"]
-        # same basic solution: the exact verdict on the basis read back equals the verdict on the original (valid bases: status 3 on free columns only)
-        vb = [(cs, rs) for (cs, rs) in bases if all(st != "3" or is_free(c) for st, c in zip(cs, P["cols"]))][:12]
+        # same basic solution: the exact verdict on the basis read back equals the verdict on the original (valid bases: a non-basic free column has status 3, no other column has)
+        vb = [(cs, rs) for (cs, rs) in bases if all((st in "13") if is_free(c) else (st != "3") for st, c in zip(cs, P["cols"]))][:12]
         for k, (cs, rs) in enumerate(vb):
             back = "".join(("3" if is_free(c) else "0") if st in "03" else st for st, c in zip(cs, P["cols"]))
             s += ["BOPT h1 %s %s" % (cs, rs), "BOPT h1 %s %s" % (back, rs)]
